@@ -882,6 +882,10 @@ class CSSStyleSheet(cssutils.stylesheets.StyleSheet):
                 self._cssRules.insert(index, rule)
 
         # post settings
+        if not any(rule is r for r in self._cssRules):
+            # not inserted: @charset merged into the existing one or an
+            # @namespace which is a duplicate or has been cleaned up again
+            return index
         rule._parentStyleSheet = self
 
         if rule.IMPORT_RULE == rule.type and not rule.hrefFound:
